@@ -37,7 +37,7 @@ class Contract:
         self.modifies = list(kw.pop("modifies", []))       # e.g. ["self._bloom", "self._els_added"]
         self.loops = dict(kw.pop("loops", {}))             # ordinal -> {"invariant": [...]}
         for k, v in list(self.loops.items()):
-            v = dict(v)
+            v = dict(v)         # {"invariant": [...]}  or  {"unreached": True} (a loop in a branch this contract's argument kind never takes)
             v["invariant"] = _named(v.get("invariant", []), "inv")
             self.loops[k] = v
         # receiver classes for which the body reached through the MRO is verified
